@@ -554,15 +554,25 @@ class VariantBase(productmd.common.MetadataBase):
         # There can be exceptions, like $variant-optional on top-level,
         # because optional lives in a separate tree
         if name not in self.variants and "-" in name:
-            # look for the UID first
-            for i in self.variants:
-                var = self.variants[i]
-                if var.uid == name:
-                    return var
+            # look for the UID first; search the whole tree, because matching
+            # only the remaining (relative) part of the name against UIDs of
+            # nested variants finds a wrong variant when ids repeat
+            var = self._find_uid(name)
+            if var is not None:
+                return var
             # if UID is not found, split and look for variant matching the parts
             head, tail = name.split("-", 1)
             return self.variants[head][tail]
         return self.variants[name]
+
+    def _find_uid(self, uid):
+        for var in self.variants.values():
+            if var.uid == uid:
+                return var
+            found = var._find_uid(uid)
+            if found is not None:
+                return found
+        return None
 
     def __delitem__(self, name):
         if name not in self.variants and "-" in name:
